@@ -56,6 +56,9 @@ CURATED = [
     ("repeatuntil", 0, I8, 0),
     ("adapt", common.I16b, "inc"), ("adapt", I8, "xor"), ("adapt", ("fmt", "Int16sb"), "cls"), ("struct", (("n", ("adapt", I8, "inc")), ("d", ("bytesctx", "n", 3)))),
     ("greedyrange", ("adapt", VAR, "inc"), 0),
+    # members cut short by StopIf: the parsed value is shorter than the member list and must still build
+    ("raw", "Sequence('a'/Byte, StopIf(this.a == 0), 'b'/Byte)"), ("raw", "Struct('a'/Byte, StopIf(this.a == 0), 'b'/Byte)"), ("raw", "Sequence(StopIf(True), Byte)"),
+    ("raw", "Struct('s'/Sequence('a'/Byte, StopIf(this.a & 1), 'b'/Int16ub), 't'/Byte)"), ("raw", "GreedyRange(Sequence('a'/Byte, StopIf(this.a == 0), 'b'/Byte))"),
     # alignment / padding that starts at an offset which is not a multiple of the modulus
     ("struct", (("tag", I8), ("val", ("aligned", 4, common.I16b, "00")))), ("struct", (("tag", I8), ("val", ("aligned", 4, VAR, "00"))), ),
     ("greedyrange", ("struct", (("tag", I8), ("val", ("aligned", 2, I8, "00")))), 0),
